@@ -24,6 +24,7 @@ Ltac prep2 :=
   constructor; unfold finished_direct in *; cbn -[nth_error next_id has_ongoing set_nth In] in *; intros; unfold upd in *; eqb_cases.
 
 Ltac sat2 I J :=
+  try solve [ auto | congruence | apply (j_kind_p _ _ J); auto | apply (j_once _ _ J); auto ];
   repeat match goal with
   | y : cid |- _ =>
     lazymatch goal with
@@ -56,6 +57,9 @@ Proof.
   all: try solve [ destruct (j_kind_p _ _ J p); congruence ].
 Qed.
 
+Lemma inv2_if_ph : forall P c2 (b : bool) f, inv2 P c2 -> inv2 P (if b then set_aq_ph f c2 else c2).
+Proof. intros P c2 b f H. destruct b; auto. destruct H; constructor; auto. Qed.
+
 Lemma inv2_step : forall P c t c', inv P c -> inv2 P c -> step P c t = Some c' -> inv2 P c'.
 Proof.
   intros P c t c' I J H. destruct t; simpl in H.
@@ -87,7 +91,7 @@ Proof.
       * assert (Hk : p_kind P c1 <> Direct) by (eapply (j_kind_q _ _ J); eapply nth_error_In; eauto).
         destruct (ierr c c0); inv_some.
         -- prep2; try solve [eapply (j_kind_q _ _ J); eauto]; sat2 I J.
-        -- apply inv2_deliver; auto.
+        -- apply inv2_if_ph. apply inv2_deliver; auto.
            { eapply inv_core_eq; [|exact I]. core. }
            prep2; try solve [eapply (j_kind_q _ _ J); eauto]; sat2 I J.
       * inv_some. prep2; try solve [eapply (j_kind_q _ _ J); eauto]; sat2 I J.
@@ -130,6 +134,7 @@ Proof.
       all: prep2; try solve [eapply (j_kind_q _ _ J); eauto]; sat2 I J.
     + destruct (drain c); inv_some. prep2; try solve [eapply (j_kind_q _ _ J); eauto]; sat2 I J.
     + inv_some. prep2; try solve [eapply (j_kind_q _ _ J); eauto]; sat2 I J.
+  - unfold step_drain_ack in H. destruct (aq_ph c a); inv_some. destruct J; constructor; auto.
 Qed.
 
 Lemma inv2_reachable : forall P c, reachable P c -> inv2 P c.
